@@ -1,3 +1,489 @@
-/-! Property C03 — theorems (statements live here, helper lemmas in Faithful/Lib) -/
+import Faithful.Lib.EpochLookupProofs
+import Faithful.Properties.C01
+
+/-!
+# C03 — a request is never answered with an object that belongs to a different key
+
+Model: Faithful/Lib/EpochLookup.lean (the definitions the driver `fdrv-C03` executes).
+
+* The on-disk hash index stores no keys (`lookup_collision`, `collision_found`, `index_alone_cannot_reject`): the
+  index alone cannot tell an absent key from a stored one with the same bucket and 24-bit hash.
+* A CID-addressed fetch compares the CID of the section it read (`getNodeByCid_sound`, `getNodeByCid_archived`).
+* `Epoch.GetBlock` / `Epoch.GetTransaction` WITH the comparison of the decoded slot / first signature
+  (the repaired behaviour, fix C03-1) are sound for EVERY index content, even a corrupted or colliding one
+  (`getBlock_sound`, `getTx_sound`, `multiGetBlock_sound`, `multiGetTx_sound`), answer nothing for absent keys of a
+  well-built archive (`getBlock_absent`, `getTx_absent`) and lose nothing (`getBlock_complete`, `getTx_complete`).
+* WITHOUT the comparison (the pinned tree) a well-built archive answers an absent slot with the block of another
+  slot (`getBlock_unsound_without_check`, `getTx_unsound_without_check`).
+* The address lookup with the per-transaction membership check (fix C03-2) returns only transactions that mention
+  the address (`gsfa_sound`, `gsfa_absent`), keeps every answer for present addresses (`gsfa_complete`); without it
+  a colliding address gets the other address's list (`gsfaNoCheck_collision`, `gsfa_unsound_without_check`).
+
+All statements hold for an arbitrary pair of hash functions `hf` and an arbitrary node decoder `info`.
+-/
 namespace C03
+open B CI Car IndexAll EpochLookup
+
+/-! ## the hash index stores no keys -/
+
+/-- two keys with the same bucket and the same in-bucket hash get the same answer from ANY index -/
+theorem lookup_collision (hf : HF) (ix : IndexA) (k k' : Bytes) (i : Nat) (b : BucketA)
+    (hk : hf.bucket k ix.numBuckets = some i) (hk' : hf.bucket k' ix.numBuckets = some i)
+    (hb : ix.buckets[i]? = some b) (he : hf.entry b.nonce k' = hf.entry b.nonce k) :
+    lookupA hf ix k' = lookupA hf ix k := by
+  unfold lookupA
+  simp only [hk, hk', hb, he]
+
+/-- in an index built by the real builder, a key that was never inserted but collides with an inserted one is
+    answered "found" with the inserted key's value -/
+theorem collision_found (hf : HF) (vs declared : Nat) (m : List (Bytes × Bytes)) (kvs : List KV) (ix : IndexA)
+    (h : buildA hf vs declared m kvs = .ok ix) (kv : KV) (hkv : kv ∈ kvs) (k' : Bytes)
+    (hbkt : hf.bucket k' ix.numBuckets = hf.bucket kv.key ix.numBuckets)
+    (hent : ∀ nonce, hf.entry nonce k' = hf.entry nonce kv.key) :
+    lookupA hf ix k' = .found kv.val := by
+  rw [← C04.build_lookup hf vs declared m kvs ix h kv hkv]
+  unfold lookupA
+  rw [hbkt]
+  cases hf.bucket kv.key ix.numBuckets with
+  | none => rfl
+  | some i =>
+    simp only []
+    cases ix.buckets[i]? with
+    | none => rfl
+    | some b => simp only [hent]
+
+/-- **the index alone cannot reject an absent key**: there is a successfully built index and a key that was never
+    inserted for which the lookup does not answer not-found (toy hash pair: bucket and in-bucket hash by key length) -/
+theorem index_alone_cannot_reject :
+    ∃ (hf : HF) (kvs : List KV) (ix : IndexA) (k : Bytes),
+      buildA hf 36 25000 [] kvs = .ok ix ∧ k ∉ kvs.map (·.key) ∧ lookupA hf ix k ≠ .notFound := by
+  obtain ⟨ix, h⟩ := C04.build_singleton_ok C04.toyHF 36 25000 [] ⟨[4,5], [8]⟩ (by omega) (by omega) 2 (by decide) (by decide)
+  refine ⟨C04.toyHF, [⟨[4,5], [8]⟩], ix, [9,9], h, by decide, ?_⟩
+  rw [collision_found C04.toyHF 36 25000 [] _ ix h ⟨[4,5], [8]⟩ (by simp) [9,9] rfl (fun _ => rfl)]
+  simp
+
+/-! ## fetch by CID -/
+
+/-- re-export of C01's theorem: whatever the index says and whatever file is read, data comes back only from a
+    section labelled with the requested CID -/
+theorem getNodeByCid_sound (hf : HF) (ix : IndexSet) (car c d : Bytes) (h : getNodeByCid hf ix car c = .ok d) :
+    ∃ off sz, off + sz ≤ car.length ∧ parseSection (slice car off sz) = some (c, d) :=
+  C01.getNodeByCid_sound hf ix car c d h
+
+/-- strengthened for a well-built archive: a successful fetch returns exactly an archived object stored under the
+    requested CID (never bytes stored under a different CID, never bytes cut out of the middle of the file) -/
+theorem getNodeByCid_archived (hf : HF) (info : Bytes → Info) (hdr : Bytes) (secs : List Sec) (a b c : Nat) (ix : IndexSet)
+    (hwf : ∀ s ∈ secs, s.cid.length = 36)
+    (h : build hf info hdr.length secs a b c = .ok ix) (k d : Bytes)
+    (hg : getNodeByCid hf ix (Car.encode hdr secs) k = .ok d) : (⟨k, d⟩ : Sec) ∈ secs := by
+  obtain ⟨hsmall, hc, _, _, _, _⟩ := build_ok hf info hdr.length secs a b c ix h
+  unfold getNodeByCid at hg
+  split at hg
+  · rename_i v hv
+    obtain ⟨kv, hkv, _, _, _, _, _, _, hval⟩ := C04.lookup_sound hf 9 a [] _ ix.cidIx hc k v hv
+    unfold cidKVs at hkv
+    obtain ⟨l, hl, hkvl⟩ := List.mem_map.mp hkv
+    obtain ⟨i, hiL, hli⟩ := List.getElem_of_mem hl
+    have hi : i < secs.length := by rw [scan_length] at hiL; exact hiL
+    have hloc := scan_getElem hdr.length secs i hi
+    rw [hli] at hloc
+    obtain ⟨ho, hs⟩ := hsmall l hl
+    rw [hloc] at ho hs
+    simp only at ho hs
+    have hv' : v = oasEncode (hdr.length + prefixLen (secs.map secBytes) i) (secBytes secs[i]).length := by
+      rw [← hval, ← hkvl, hloc]
+    subst hv'
+    simp only [oas_roundtrip _ _ ho hs] at hg
+    have hslice := slice_at_loc hdr secs i hi
+    have hfit : hdr.length + prefixLen (secs.map secBytes) i + (secBytes secs[i]).length ≤ (Car.encode hdr secs).length := by
+      unfold Car.encode
+      have hi' : i < (secs.map secBytes).length := by simpa using hi
+      have := prefix_le_total (secs.map secBytes) i hi'
+      simp only [List.getElem_map] at this
+      simp only [List.length_append]
+      omega
+    have hsz : secs[i].cid.length + secs[i].data.length < 268435456 := by
+      rw [secBytes_length] at hs
+      have : (2:Nat)^24 = 16777216 := by decide
+      omega
+    unfold nodeAt at hg
+    have hnot : ¬ (hdr.length + prefixLen (secs.map secBytes) i + (secBytes secs[i]).length > (Car.encode hdr secs).length) := by omega
+    simp only [hnot, if_false, hslice, parseSection_secBytes secs[i] (hwf _ (List.getElem_mem hi)) hsz] at hg
+    by_cases hck : secs[i].cid = k
+    · simp only [hck, if_true, Got.ok.injEq] at hg
+      have : (⟨k, d⟩ : Sec) = secs[i] := by rw [← hck, ← hg]
+      rw [this]; exact List.getElem_mem hi
+    · simp [hck] at hg
+  · cases hg
+  · cases hg
+
+/-! ## blocks -/
+
+/-- what an `ok` of the checked `GetBlock` means, for every index content and every file -/
+theorem getBlock_ok (hf : HF) (info : Bytes → Info) (ix : IndexSet) (car : Bytes) (s : Nat) (n : Node) (slot : Nat)
+    (h : getBlock hf info ix car s = .ok (n, slot)) :
+    slot = s ∧ findCidFromSlot hf ix s = .found n.cid ∧ getNodeByCid hf ix car n.cid = .ok n.data ∧
+      ∃ bt, info n.data = .block s bt := by
+  unfold getBlock at h
+  obtain ⟨h1, hs⟩ := checkSlot_ok s _ n slot h
+  unfold getBlockNoCheck getBlockWith at h1
+  obtain ⟨h2, bt, hi⟩ := asBlock_ok info _ n slot h1
+  obtain ⟨h3, h4⟩ := fetchFound_ok _ _ n h2
+  subst hs
+  exact ⟨rfl, h3, h4, bt, hi⟩
+
+/-- **getBlock never answers with a block of another slot** — for every hash pair, every decoder, EVERY index
+    content (corrupted, colliding, built for another CAR) and every file: an answer is a node that decodes as a block
+    of the requested slot and was read from a section labelled with the CID the index gave. -/
+theorem getBlock_sound (hf : HF) (info : Bytes → Info) (ix : IndexSet) (car : Bytes) (s : Nat) (n : Node) (slot : Nat)
+    (h : getBlock hf info ix car s = .ok (n, slot)) :
+    slot = s ∧ (∃ bt, info n.data = .block s bt) ∧
+      ∃ off sz, off + sz ≤ car.length ∧ parseSection (slice car off sz) = some (n.cid, n.data) := by
+  obtain ⟨hs, _, hg, hb⟩ := getBlock_ok hf info ix car s n slot h
+  exact ⟨hs, hb, getNodeByCid_sound hf ix car n.cid n.data hg⟩
+
+/-- a slot that has no block in a well-built archive is never answered with a block
+    (skipped slots, slots of other epochs, slots whose 24-bit hash collides with a stored slot alike) -/
+theorem getBlock_absent (hf : HF) (info : Bytes → Info) (hdr : Bytes) (secs : List Sec) (a b c : Nat) (ix : IndexSet)
+    (hwf : ∀ s ∈ secs, s.cid.length = 36)
+    (h : build hf info hdr.length secs a b c = .ok ix) (s : Nat)
+    (habs : ∀ sec ∈ secs, ∀ bt, info sec.data ≠ .block s bt) (r : Node × Nat) :
+    getBlock hf info ix (Car.encode hdr secs) s ≠ .ok r := by
+  intro hg
+  obtain ⟨n, slot⟩ := r
+  obtain ⟨_, _, hget, bt, hi⟩ := getBlock_ok hf info ix _ s n slot hg
+  have hm := getNodeByCid_archived hf info hdr secs a b c ix hwf h n.cid n.data hget
+  exact habs _ hm bt hi
+
+/-- the comparison loses nothing: every archived block is still returned for its own slot -/
+theorem getBlock_complete (hf : HF) (info : Bytes → Info) (hdr : Bytes) (secs : List Sec) (a b c : Nat) (ix : IndexSet)
+    (hwf : ∀ s ∈ secs, s.cid.length = 36)
+    (h : build hf info hdr.length secs a b c = .ok ix) (i : Nat) (hi : i < secs.length) (slot bt : Nat)
+    (hinfo : info secs[i].data = .block slot bt) :
+    getBlock hf info ix (Car.encode hdr secs) slot = .ok (⟨secs[i].cid, secs[i].data⟩, slot) := by
+  have h1 := (C01.C01_slots hf info hdr secs a b c ix h secs[i] (List.getElem_mem hi) slot bt hinfo).1
+  have h2 := C01.C01_objects hf info hdr secs a b c ix hwf h i hi
+  unfold getBlock getBlockNoCheck getBlockWith
+  rw [h1]
+  simp only [fetchFound, h2, asBlock, hinfo, checkSlot, if_true]
+
+/-! ## transactions -/
+
+theorem getTx_ok (hf : HF) (info : Bytes → Info) (ix : IndexSet) (car : Bytes) (g : Bytes) (n : Node) (sig : Bytes)
+    (h : getTx hf info ix car g = .ok (n, sig)) :
+    sig = g ∧ findCidFromSig hf ix g = .found n.cid ∧ getNodeByCid hf ix car n.cid = .ok n.data ∧
+      info n.data = .tx g := by
+  unfold getTx at h
+  obtain ⟨h1, hs⟩ := checkSig_ok g _ n sig h
+  unfold getTxNoCheck getTxWith at h1
+  obtain ⟨h2, hi⟩ := asTx_ok info _ n sig h1
+  obtain ⟨h3, h4⟩ := fetchFound_ok _ _ n h2
+  subst hs
+  exact ⟨rfl, h3, h4, hi⟩
+
+/-- **getTransaction never answers with a transaction that does not carry the requested signature** — for every
+    index content and every file -/
+theorem getTx_sound (hf : HF) (info : Bytes → Info) (ix : IndexSet) (car : Bytes) (g : Bytes) (n : Node) (sig : Bytes)
+    (h : getTx hf info ix car g = .ok (n, sig)) :
+    sig = g ∧ info n.data = .tx g ∧
+      ∃ off sz, off + sz ≤ car.length ∧ parseSection (slice car off sz) = some (n.cid, n.data) := by
+  obtain ⟨hs, _, hg, hi⟩ := getTx_ok hf info ix car g n sig h
+  exact ⟨hs, hi, getNodeByCid_sound hf ix car n.cid n.data hg⟩
+
+/-- a signature that no archived transaction carries first is never answered with a transaction -/
+theorem getTx_absent (hf : HF) (info : Bytes → Info) (hdr : Bytes) (secs : List Sec) (a b c : Nat) (ix : IndexSet)
+    (hwf : ∀ s ∈ secs, s.cid.length = 36)
+    (h : build hf info hdr.length secs a b c = .ok ix) (g : Bytes)
+    (habs : ∀ sec ∈ secs, info sec.data ≠ .tx g) (r : Node × Bytes) :
+    getTx hf info ix (Car.encode hdr secs) g ≠ .ok r := by
+  intro hg
+  obtain ⟨n, sig⟩ := r
+  obtain ⟨_, _, hget, hi⟩ := getTx_ok hf info ix _ g n sig hg
+  have hm := getNodeByCid_archived hf info hdr secs a b c ix hwf h n.cid n.data hget
+  exact habs _ hm hi
+
+theorem getTx_complete (hf : HF) (info : Bytes → Info) (hdr : Bytes) (secs : List Sec) (a b c : Nat) (ix : IndexSet)
+    (hwf : ∀ s ∈ secs, s.cid.length = 36)
+    (h : build hf info hdr.length secs a b c = .ok ix) (i : Nat) (hi : i < secs.length) (sig : Bytes)
+    (hinfo : info secs[i].data = .tx sig) :
+    getTx hf info ix (Car.encode hdr secs) sig = .ok (⟨secs[i].cid, secs[i].data⟩, sig) := by
+  have h1 := (C01.C01_sigs hf info hdr secs a b c ix h secs[i] (List.getElem_mem hi) sig hinfo).1
+  have h2 := C01.C01_objects hf info hdr secs a b c ix hwf h i hi
+  unfold getTx getTxNoCheck getTxWith
+  rw [h1]
+  simp only [fetchFound, h2, asTx, hinfo, checkSig, if_true]
+
+/-! ## several epochs loaded -/
+
+/-- JSON-RPC / gRPC getBlock over any set of loaded epochs: an answer is a block of the requested slot taken from
+    the epoch the slot belongs to -/
+theorem multiGetBlock_sound (hf : HF) (info : Bytes → Info) (es : List Ep) (s : Nat) (n : Node) (slot : Nat)
+    (h : multiGetBlock hf info es s = .ok (n, slot)) :
+    slot = s ∧ ∃ e ∈ es, e.num = s / Generated.epochLen ∧ getNodeByCid hf e.ix e.car n.cid = .ok n.data ∧
+      ∃ bt, info n.data = .block s bt := by
+  unfold multiGetBlock multiGetBlockG at h
+  split at h
+  · cases h
+  · rename_i e he
+    obtain ⟨hs, _, hg, hb⟩ := getBlock_ok hf info e.ix e.car s n slot h
+    have hm := List.mem_of_find?_eq_some he
+    have hp := List.find?_some he
+    simp only [beq_iff_eq, epochOfSlot] at hp
+    exact ⟨hs, e, hm, hp, hg, hb⟩
+
+/-- a slot of an epoch that is not loaded is answered epoch-not-available, whatever the other epochs' indexes say -/
+theorem multiGetBlock_not_loaded (hf : HF) (info : Bytes → Info) (es : List Ep) (s : Nat)
+    (h : ∀ e ∈ es, e.num ≠ s / Generated.epochLen) : multiGetBlock hf info es s = .epochNotAvailable := by
+  unfold multiGetBlock multiGetBlockG
+  have : es.find? (fun e => e.num == epochOfSlot s) = none := by
+    apply List.find?_eq_none.mpr
+    intro e he
+    simpa [epochOfSlot] using h e he
+  rw [this]
+
+/-- JSON-RPC / gRPC getTransaction, one epoch loaded (no sig-exists filter consulted) or several: an answer carries
+    the requested signature, whichever epoch the routing picked -/
+theorem multiGetTx_sound (hf : HF) (info : Bytes → Info) (es : List Ep) (g : Bytes) (n : Node) (sig : Bytes)
+    (h : multiGetTx hf info es g = .ok (n, sig)) :
+    sig = g ∧ info n.data = .tx g ∧ ∃ e : Ep, getNodeByCid hf e.ix e.car n.cid = .ok n.data := by
+  unfold multiGetTx multiGetTxG at h
+  split at h
+  · cases h
+  · rename_i e _
+    obtain ⟨hs, _, hg, hi⟩ := getTx_ok hf info e.ix e.car g n sig h
+    exact ⟨hs, hi, e, hg⟩
+
+/-! ## the pinned tree: without the comparison -/
+
+theorem buildA_nil_ok (hf : HF) (vs declared : Nat) (m : List (Bytes × Bytes)) (hvs : 0 < vs ∧ vs ≤ 255) (hd : 0 < declared) :
+    ∃ ix, buildA hf vs declared m [] = .ok ix := by
+  unfold buildA
+  have h1 : ¬ (vs = 0 ∨ vs > 255 ∨ declared = 0) := by omega
+  simp only [h1, if_false, List.any_nil]
+  obtain ⟨r, hr⟩ := C04.allSome_map_some (fun j => sealBucket hf (bucketKVs hf (numBucketsFor declared) [] j))
+    (List.range (numBucketsFor declared)) (by
+      intro j _
+      apply C04.sealBucket_small
+      simp [bucketKVs])
+  exact ⟨⟨vs, numBucketsFor declared, m, r⟩, by simp [hr]⟩
+
+/-- a one-block archive for the toy hash pair: the witness of the two theorems below -/
+def exCid : Bytes := List.replicate 36 1
+def exSecs : List Sec := [⟨exCid, [2]⟩]
+def exInfoBlock : Bytes → Info := fun _ => .block 5 0
+def exInfoTx : Bytes → Info := fun _ => .tx [7]
+
+theorem exSec_len : (secBytes ⟨exCid, [2]⟩).length = 38 := by
+  rw [secBytes_length]
+  simp only [exCid, List.length_replicate, List.length_cons, List.length_nil]
+  rw [Varint.width_lt128 (by omega)]
+
+theorem ex_build_ok (info : Bytes → Info) (key : Bytes)
+    (hs : slotKVs info exSecs = [⟨key, exCid⟩] ∧ sigKVs info exSecs = [] ∨
+          slotKVs info exSecs = [] ∧ sigKVs info exSecs = [⟨key, exCid⟩]) :
+    ∃ ix, build C04.toyHF info ([] : Bytes).length exSecs 1 1 1 = .ok ix := by
+  have hnb : numBucketsFor 1 = 1 := by decide
+  have hscan : scan 0 exSecs = [⟨exCid, 0, 38⟩] := by simp [exSecs, scan, exSec_len]
+  have hcid : cidKVs 0 exSecs = [⟨exCid, oasEncode 0 38⟩] := by simp [cidKVs, hscan]
+  have hbk : ∀ k : Bytes, C04.toyHF.bucket k (numBucketsFor 1) = some 0 := by
+    intro k; rw [hnb]; simp [C04.toyHF, Nat.mod_one]
+  obtain ⟨c, hc⟩ := C04.build_singleton_ok C04.toyHF 9 1 [] ⟨exCid, oasEncode 0 38⟩ (by omega) (by omega) 0 (hbk _) (by rw [hnb]; omega)
+  obtain ⟨one, hone⟩ := C04.build_singleton_ok C04.toyHF 36 1 [] ⟨key, exCid⟩ (by omega) (by omega) 0 (hbk _) (by rw [hnb]; omega)
+  obtain ⟨nil, hnil⟩ := buildA_nil_ok C04.toyHF 36 1 [] (by omega) (by omega)
+  unfold build
+  have hany : (scan 0 exSecs).any (fun l => decide (l.offset ≥ 2^48 ∨ l.secLen ≥ 2^24)) = false := by
+    simp [hscan]
+  simp only [List.length_nil, hany, Bool.false_eq_true, if_false, hcid, hc]
+  rcases hs with ⟨h1, h2⟩ | ⟨h1, h2⟩
+  · simp only [h1, h2, hone, hnil]
+    exact ⟨_, rfl⟩
+  · simp only [h1, h2, hone, hnil]
+    exact ⟨_, rfl⟩
+
+/-- **without the comparison `GetBlock` is unsound**: a successfully indexed archive, a slot that has no block in
+    it, and the unchecked lookup answers with the block of another slot — while the checked lookup answers not-found.
+    (Toy hash pair in the kernel; with the real xxhash64 the correspondence run finds such slots in every generated
+    epoch: e.g. GetBlock(515629) → block of slot 432211.) -/
+theorem getBlock_unsound_without_check :
+    ∃ (hf : HF) (info : Bytes → Info) (hdr : Bytes) (secs : List Sec) (a b c : Nat) (ix : IndexSet) (s : Nat) (n : Node) (slot : Nat),
+      build hf info hdr.length secs a b c = .ok ix ∧
+      (∀ sec ∈ secs, ∀ bt, info sec.data ≠ .block s bt) ∧
+      getBlockNoCheck hf info ix (Car.encode hdr secs) s = .ok (n, slot) ∧ slot ≠ s ∧
+      getBlock hf info ix (Car.encode hdr secs) s = .notFound := by
+  have hkv : slotKVs exInfoBlock exSecs = [⟨slotKey 5, exCid⟩] ∧ sigKVs exInfoBlock exSecs = [] := by
+    constructor <;> simp [slotKVs, sigKVs, exSecs, exInfoBlock]
+  obtain ⟨ix, h⟩ := ex_build_ok exInfoBlock (slotKey 5) (Or.inl hkv)
+  have hwf : ∀ s ∈ exSecs, s.cid.length = 36 := by
+    intro s hs; simp only [exSecs, List.mem_cons, List.mem_nil_iff, or_false] at hs; subst hs; simp [exCid]
+  obtain ⟨_, _, hsl, _, _, _⟩ := build_ok _ _ _ _ _ _ _ ix h
+  rw [hkv.1] at hsl
+  -- slot 6 is absent, but its key collides with the key of slot 5
+  have hfind : findCidFromSlot C04.toyHF ix 6 = .found exCid :=
+    collision_found C04.toyHF 36 1 [] _ ix.slotIx hsl ⟨slotKey 5, exCid⟩ (by simp) (slotKey 6) rfl (fun _ => rfl)
+  have hobj := C01.C01_objects C04.toyHF exInfoBlock [] exSecs 1 1 1 ix hwf h 0 (by simp [exSecs])
+  have hno : getBlockNoCheck C04.toyHF exInfoBlock ix (Car.encode [] exSecs) 6 = .ok (⟨exCid, [2]⟩, 5) := by
+    unfold getBlockNoCheck getBlockWith
+    rw [hfind]
+    simp only [exSecs, List.getElem_cons_zero] at hobj
+    simp only [fetchFound, exSecs, hobj, asBlock, exInfoBlock]
+  refine ⟨C04.toyHF, exInfoBlock, [], exSecs, 1, 1, 1, ix, 6, ⟨exCid, [2]⟩, 5, h, ?_, hno, by decide, ?_⟩
+  · intro sec _ bt; simp [exInfoBlock]
+  · unfold getBlock; rw [hno]; simp [checkSlot]
+
+/-- the same for `GetTransaction` -/
+theorem getTx_unsound_without_check :
+    ∃ (hf : HF) (info : Bytes → Info) (hdr : Bytes) (secs : List Sec) (a b c : Nat) (ix : IndexSet) (g : Bytes) (n : Node) (sig : Bytes),
+      build hf info hdr.length secs a b c = .ok ix ∧
+      (∀ sec ∈ secs, info sec.data ≠ .tx g) ∧
+      getTxNoCheck hf info ix (Car.encode hdr secs) g = .ok (n, sig) ∧ sig ≠ g ∧
+      getTx hf info ix (Car.encode hdr secs) g = .notFound := by
+  have hkv : slotKVs exInfoTx exSecs = [] ∧ sigKVs exInfoTx exSecs = [⟨[7], exCid⟩] := by
+    constructor <;> simp [slotKVs, sigKVs, exSecs, exInfoTx]
+  obtain ⟨ix, h⟩ := ex_build_ok exInfoTx [7] (Or.inr hkv)
+  have hwf : ∀ s ∈ exSecs, s.cid.length = 36 := by
+    intro s hs; simp only [exSecs, List.mem_cons, List.mem_nil_iff, or_false] at hs; subst hs; simp [exCid]
+  obtain ⟨_, _, _, hsg, _, _⟩ := build_ok _ _ _ _ _ _ _ ix h
+  rw [hkv.2] at hsg
+  have hfind : findCidFromSig C04.toyHF ix [9] = .found exCid :=
+    collision_found C04.toyHF 36 1 [] _ ix.sigIx hsg ⟨[7], exCid⟩ (by simp) [9] rfl (fun _ => rfl)
+  have hobj := C01.C01_objects C04.toyHF exInfoTx [] exSecs 1 1 1 ix hwf h 0 (by simp [exSecs])
+  have hno : getTxNoCheck C04.toyHF exInfoTx ix (Car.encode [] exSecs) [9] = .ok (⟨exCid, [2]⟩, [7]) := by
+    unfold getTxNoCheck getTxWith
+    rw [hfind]
+    simp only [exSecs, List.getElem_cons_zero] at hobj
+    simp only [fetchFound, exSecs, hobj, asTx, exInfoTx]
+  refine ⟨C04.toyHF, exInfoTx, [], exSecs, 1, 1, 1, ix, [9], ⟨exCid, [2]⟩, [7], h, ?_, hno, by decide, ?_⟩
+  · intro sec _; simp [exInfoTx]
+  · unfold getTx; rw [hno]; simp [checkSig]
+
+/-! ## addresses -/
+
+theorem gsfaEpoch_sound (hf : HF) (g : AddrIndex) (a : Bytes) (l : List Tx) (h : gsfaEpoch hf g a = .ok l) :
+    ∀ t ∈ l, a ∈ t.mentions := by
+  unfold gsfaEpoch at h
+  split at h
+  · rename_i l' _
+    cases h
+    intro t ht
+    have := mem_takeWhile_true _ t _ ht
+    simpa using this
+  · rename_i hne
+    exact absurd h (by intro h'; exact hne l h')
+
+/-- **getSignaturesForAddress lists only transactions that mention the address** — for every content of the
+    pubkey indexes and of the linked logs, any number of epochs, any limit -/
+theorem gsfa_sound (hf : HF) (gs : List AddrIndex) (a : Bytes) (limit : Nat) (l : List Tx)
+    (h : gsfa hf gs a limit = .ok l) : ∀ t ∈ l, a ∈ t.mentions := by
+  unfold gsfa at h
+  split at h
+  · rename_i l' hl
+    cases h
+    intro t ht
+    exact gsfaAll_all (fun t => a ∈ t.mentions) _ (fun g l h => gsfaEpoch_sound hf g a l h) gs l' hl t (List.mem_of_mem_take ht)
+  · rename_i hne
+    exact absurd h (by intro h'; exact hne l h')
+
+theorem gsfaEpoch_absent (hf : HF) (g : AddrIndex) (a : Bytes)
+    (habs : ∀ v, ∀ t ∈ g.log v, a ∉ t.mentions) (l : List Tx) (h : gsfaEpoch hf g a = .ok l) : l = [] := by
+  unfold gsfaEpoch at h
+  split at h
+  · rename_i l' hl'
+    cases h
+    unfold gsfaEpochNoCheck at hl'
+    split at hl'
+    · rename_i v _
+      cases hl'
+      apply takeWhile_nil_of_all_false
+      intro t ht
+      have := habs v t ht
+      simpa using this
+    · cases hl'; rfl
+    · cases hl'
+  · rename_i hne
+    exact absurd h (by intro h'; exact hne l h')
+
+/-- an address that no transaction of the loaded epochs mentions gets the empty list — even when its 24-bit hash
+    equals that of an indexed address in some (or every) epoch -/
+theorem gsfa_absent (hf : HF) (gs : List AddrIndex) (a : Bytes) (limit : Nat)
+    (habs : ∀ g ∈ gs, ∀ v, ∀ t ∈ g.log v, a ∉ t.mentions) (l : List Tx)
+    (h : gsfa hf gs a limit = .ok l) : l = [] := by
+  unfold gsfa at h
+  split at h
+  · rename_i l' hl
+    cases h
+    have := gsfaAll_nil _ gs (fun g hg l h => gsfaEpoch_absent hf g a (habs g hg) l h) l' hl
+    simp [this]
+  · rename_i hne
+    exact absurd h (by intro h'; exact hne l h')
+
+/-- the check loses nothing: an address whose list holds only transactions that mention it (what `index gsfa`
+    writes) gets its whole list -/
+theorem gsfa_complete (hf : HF) (g : AddrIndex) (a v : Bytes) (hl : lookupA hf g.ix a = .found v)
+    (hm : ∀ t ∈ g.log v, a ∈ t.mentions) : gsfaEpoch hf g a = .ok (g.log v) := by
+  unfold gsfaEpoch gsfaEpochNoCheck
+  rw [hl]
+  simp only
+  rw [takeWhile_all _ _ (fun t ht => by simpa using hm t ht)]
+
+/-- on the pinned tree an address that collides with an indexed one gets that address's list -/
+theorem gsfaNoCheck_collision (hf : HF) (g : AddrIndex) (a a' : Bytes) (i : Nat) (b : BucketA)
+    (hk : hf.bucket a g.ix.numBuckets = some i) (hk' : hf.bucket a' g.ix.numBuckets = some i)
+    (hb : g.ix.buckets[i]? = some b) (he : hf.entry b.nonce a' = hf.entry b.nonce a) :
+    gsfaEpochNoCheck hf g a' = gsfaEpochNoCheck hf g a := by
+  unfold gsfaEpochNoCheck
+  rw [lookup_collision hf g.ix a a' i b hk hk' hb he]
+
+/-- concrete witness: a built pubkey index, an address no transaction mentions, and the unchecked lookup lists a
+    transaction of another address while the checked lookup lists nothing -/
+theorem gsfa_unsound_without_check :
+    ∃ (hf : HF) (g : AddrIndex) (a : Bytes) (t : Tx),
+      (∀ v, ∀ t ∈ g.log v, a ∉ t.mentions) ∧
+      gsfaNoCheck hf [g] a 1000 = .ok [t] ∧ a ∉ t.mentions ∧ gsfa hf [g] a 1000 = .ok [] := by
+  obtain ⟨ix, h⟩ := C04.build_singleton_ok C04.toyHF 9 25000 [] ⟨[1,1], [7]⟩ (by omega) (by omega) 2 (by decide) (by decide)
+  have hl : lookupA C04.toyHF ix [2,2] = .found [7] :=
+    collision_found C04.toyHF 9 25000 [] _ ix h ⟨[1,1], [7]⟩ (by simp) [2,2] rfl (fun _ => rfl)
+  refine ⟨C04.toyHF, ⟨ix, fun _ => [⟨[9], [[1,1]]⟩]⟩, [2,2], ⟨[9], [[1,1]]⟩, ?_, ?_, by decide, ?_⟩
+  · intro v t ht
+    simp only [List.mem_cons, List.mem_nil_iff, or_false] at ht
+    subst ht; decide
+  · simp [gsfaNoCheck, gsfaAll, gsfaEpochNoCheck, hl]
+  · simp [gsfa, gsfaAll, gsfaEpoch, gsfaEpochNoCheck, hl, List.takeWhile]
+
+/-! ## non-vacuity -/
+
+/-- the hypotheses of `getBlock_complete` / `getBlock_absent` are satisfiable: the one-block archive above is
+    indexed successfully, its block is returned for its slot and nothing is returned for slot 6 -/
+example : ∃ ix, build C04.toyHF exInfoBlock ([] : Bytes).length exSecs 1 1 1 = .ok ix ∧
+    getBlock C04.toyHF exInfoBlock ix (Car.encode [] exSecs) 5 = .ok (⟨exCid, [2]⟩, 5) ∧
+    ∀ r, getBlock C04.toyHF exInfoBlock ix (Car.encode [] exSecs) 6 ≠ .ok r := by
+  have hkv : slotKVs exInfoBlock exSecs = [⟨slotKey 5, exCid⟩] ∧ sigKVs exInfoBlock exSecs = [] := by
+    constructor <;> simp [slotKVs, sigKVs, exSecs, exInfoBlock]
+  obtain ⟨ix, h⟩ := ex_build_ok exInfoBlock (slotKey 5) (Or.inl hkv)
+  have hwf : ∀ s ∈ exSecs, s.cid.length = 36 := by
+    intro s hs; simp only [exSecs, List.mem_cons, List.mem_nil_iff, or_false] at hs; subst hs; simp [exCid]
+  refine ⟨ix, h, ?_, ?_⟩
+  · exact getBlock_complete C04.toyHF exInfoBlock [] exSecs 1 1 1 ix hwf h 0 (by simp [exSecs]) 5 0 rfl
+  · intro r
+    exact getBlock_absent C04.toyHF exInfoBlock [] exSecs 1 1 1 ix hwf h 6 (by intro sec _ bt; simp [exInfoBlock]) r
+
+/-- `getBlock_sound` / `getTx_sound` are not vacuous: the checked lookups do answer `ok` (previous example,
+    `getTx_complete`), and `gsfa_sound` is not: a present address gets a non-empty list -/
+example : ∃ (g : AddrIndex) (l : List Tx), gsfa C04.toyHF [g] [1,1] 1000 = .ok l ∧ l ≠ [] := by
+  obtain ⟨ix, h⟩ := C04.build_singleton_ok C04.toyHF 9 25000 [] ⟨[1,1], [7]⟩ (by omega) (by omega) 2 (by decide) (by decide)
+  have hl := C04.build_lookup C04.toyHF 9 25000 [] _ ix h ⟨[1,1], [7]⟩ (by simp)
+  refine ⟨⟨ix, fun _ => [⟨[9], [[1,1]]⟩]⟩, [⟨[9], [[1,1]]⟩], ?_, by simp⟩
+  have := gsfa_complete C04.toyHF ⟨ix, fun _ => [⟨[9], [[1,1]]⟩]⟩ [1,1] [7] hl (by
+    intro t ht
+    simp only [List.mem_cons, List.mem_nil_iff, or_false] at ht
+    subst ht; decide)
+  simp [gsfa, gsfaAll, this]
+
+/-- `multiGetBlock_not_loaded`: with epochs 1 and 3 loaded a slot of epoch 2 is not served -/
+example (hf : HF) (info : Bytes → Info) (ix : IndexSet) :
+    multiGetBlock hf info [⟨1, ix, []⟩, ⟨3, ix, []⟩] 900000 = .epochNotAvailable := by
+  apply multiGetBlock_not_loaded
+  intro e he
+  simp only [List.mem_cons, List.mem_nil_iff, or_false] at he
+  rcases he with rfl | rfl <;> simp [Generated.epochLen]
+
 end C03
